@@ -37,56 +37,68 @@ Definition nm_num_def := bytes_of_codes c_qf_num_def.
 
 (* ------------------------------------------------------------------ writing *)
 
+(* one Add<Type>(name, value) call on the archive: field name, type code, item *)
+Definition field_op := (bytes * N * item)%type.
+
 Definition add (name : bytes) (tc : N) (v : item) (a : msg) : msg := fst (api_add false name tc v a).
+Definition apply_op (a : msg) (o : field_op) : msg := add (fst (fst o)) (snd (fst o)) (snd o) a.
+Definition apply_ops (ops : list field_op) (a : msg) : msg := fold_left apply_op ops a.
 
-Definition add_string (name s : bytes) (a : msg) : msg := add name c_B_STRING_TYPE (IStr s) a.
-Definition add_i32 (name : bytes) (v : N) (a : msg) : msg := add name c_B_INT32_TYPE (IFix (le_enc 4 v)) a.
-Definition add_i8 (name : bytes) (v : N) (a : msg) : msg := add name c_B_INT8_TYPE (IFix (le_enc 1 v)) a.
+Definition op_string (name s : bytes) : field_op := (name, c_B_STRING_TYPE, IStr s).           (* AddString *)
+Definition op_i32 (name : bytes) (v : N) : field_op := (name, c_B_INT32_TYPE, IFix (le_enc 4 v)).    (* AddInt32 *)
+Definition op_i8 (name : bytes) (v : N) : field_op := (name, c_B_INT8_TYPE, IFix (le_enc 1 v)).      (* AddInt8 *)
+Definition op_raw (name b : bytes) : field_op := (name, c_B_RAW_TYPE, IRaw b).                   (* AddData(.., B_RAW_TYPE, ..) *)
+Definition op_msg (name : bytes) (s : msg) : field_op := (name, c_B_MESSAGE_TYPE, IMsg s).       (* AddMessage *)
 (* CAdd<Type>(name, value, defVal): only added when value != defVal *)
-Definition cadd_i32 (name : bytes) (v d : N) (a : msg) : msg := if v =? d then a else add_i32 name v a.
-Definition cadd_i8 (name : bytes) (v d : N) (a : msg) : msg := if v =? d then a else add_i8 name v a.
-Definition add_raw (name b : bytes) (a : msg) : msg := add name c_B_RAW_TYPE (IRaw b) a.
-Definition add_msg (name : bytes) (s : msg) (a : msg) : msg := add name c_B_MESSAGE_TYPE (IMsg s) a.
+Definition cop_i32 (name : bytes) (v d : N) : list field_op := if v =? d then [] else [op_i32 name v].
+Definition cop_i8 (name : bytes) (v d : N) : list field_op := if v =? d then [] else [op_i8 name v].
+(* `if ((bytes)&&(numBytes > 0)) AddData(..)`: nothing is added for a missing or empty buffer *)
+Definition cop_raw (name : bytes) (b : option bytes) : list field_op :=
+  match b with Some x => if len x =? 0 then [] else [op_raw name x] | None => [] end.
 
-(* ValueQueryFilter::SaveToArchive after QueryFilter::SaveToArchive *)
-Definition save_value (what : N) (name : bytes) (idx : N) : msg :=
-  cadd_i32 nm_idx idx 0 (add_string nm_fn name (Msg what FNil)).
+(* ValueQueryFilter::SaveToArchive (after QueryFilter::SaveToArchive has set the what-code) *)
+Definition value_ops (name : bytes) (idx : N) : list field_op := op_string nm_fn name :: cop_i32 nm_idx idx 0.
 
-Definition opt_len0 (o : option bytes) : bool := match o with Some b => len b =? 0 | None => true end.
+Definition str_what (nodename : bool) : N := if nodename then c_QUERY_FILTER_TYPE_NODENAME else c_QUERY_FILTER_TYPE_STRING.
 
+(* SaveToArchive of each class: the what-code, then the Add calls in the order the code makes them *)
 Fixpoint to_archive (f : filter) : msg :=
   match f with
   | FWhat mn mx =>
-      cadd_i32 nm_what_max mx mn (cadd_i32 nm_what_min mn 0 (Msg c_QUERY_FILTER_TYPE_WHATCODE FNil))
+      apply_ops (cop_i32 nm_what_min mn 0 ++ cop_i32 nm_what_max mx mn) (Msg c_QUERY_FILTER_TYPE_WHATCODE FNil)
   | FExists name idx tc =>
-      cadd_i32 nm_exists_type tc c_B_ANY_TYPE (save_value c_QUERY_FILTER_TYPE_VALUEEXISTS name idx)
+      apply_ops (value_ops name idx ++ cop_i32 nm_exists_type tc c_B_ANY_TYPE) (Msg c_QUERY_FILTER_TYPE_VALUEEXISTS FNil)
   | FNum k name idx op mop val msk def =>
       let tc := nt_tc (nk_type k) in
-      let a := add nm_num_msk tc (IFix msk)
-                 (add nm_num_val tc (IFix val)
-                    (cadd_i8 nm_num_mop mop 0 (cadd_i8 nm_num_op op 0 (save_value (nk_what k) name idx)))) in
-      match def with Some d => add nm_num_def tc (IFix d) a | None => a end
+      apply_ops (value_ops name idx ++ cop_i8 nm_num_op op 0 ++ cop_i8 nm_num_mop mop 0
+                 ++ [(nm_num_val, tc, IFix val); (nm_num_msk, tc, IFix msk)]
+                 ++ match def with Some d => [(nm_num_def, tc, IFix d)] | None => [] end)
+                (Msg (nk_what k) FNil)
   | FStr nodename name idx op val def =>
-      let a := add_string nm_str_val val
-                 (save_value (if nodename then c_QUERY_FILTER_TYPE_NODENAME else c_QUERY_FILTER_TYPE_STRING) name idx) in
-      add_i8 nm_str_op op (match def with Some d => add_string nm_str_def d a | None => a end)
+      apply_ops (value_ops name idx ++ [op_string nm_str_val val]
+                 ++ match def with Some d => [op_string nm_str_def d] | None => [] end
+                 ++ [op_i8 nm_str_op op])
+                (Msg (str_what nodename) FNil)
   | FRaw name idx op tc val def =>
-      let a := cadd_i32 nm_raw_type tc c_B_ANY_TYPE (add_i8 nm_raw_op op (save_value c_QUERY_FILTER_TYPE_RAWDATA name idx)) in
-      let a := match val with Some b => if len b =? 0 then a else add_raw nm_raw_val b a | None => a end in
-      match def with Some b => if len b =? 0 then a else add_raw nm_raw_def b a | None => a end
+      apply_ops (value_ops name idx ++ [op_i8 nm_raw_op op] ++ cop_i32 nm_raw_type tc c_B_ANY_TYPE
+                 ++ cop_raw nm_raw_val val ++ cop_raw nm_raw_def def)
+                (Msg c_QUERY_FILTER_TYPE_RAWDATA FNil)
   | FMsg name idx kid defmsg =>
-      let a := save_value c_QUERY_FILTER_TYPE_MESSAGE name idx in
-      let a := match kid with OSome k => add_msg nm_msg_kid (to_archive k) a | ONone => a end in
-      match defmsg with Some d => add_msg nm_msg_defmsg d a | None => a end
-  | FMin n kids => cadd_i32 nm_min_matches n c_MUSCLE_NO_LIMIT (add_kids kids (Msg c_QUERY_FILTER_TYPE_MINMATCH FNil))
-  | FMax n kids => cadd_i32 nm_max_matches n 0 (add_kids kids (Msg c_QUERY_FILTER_TYPE_MAXMATCH FNil))
-  | FXor kids => add_kids kids (Msg c_QUERY_FILTER_TYPE_XOR FNil)
+      apply_ops (value_ops name idx
+                 ++ match kid with OSome k => [op_msg nm_msg_kid (to_archive k)] | ONone => [] end
+                 ++ match defmsg with Some d => [op_msg nm_msg_defmsg d] | None => [] end)
+                (Msg c_QUERY_FILTER_TYPE_MESSAGE FNil)
+  | FMin n kids =>
+      apply_ops (kid_ops kids ++ cop_i32 nm_min_matches n c_MUSCLE_NO_LIMIT) (Msg c_QUERY_FILTER_TYPE_MINMATCH FNil)
+  | FMax n kids =>
+      apply_ops (kid_ops kids ++ cop_i32 nm_max_matches n 0) (Msg c_QUERY_FILTER_TYPE_MAXMATCH FNil)
+  | FXor kids => apply_ops (kid_ops kids) (Msg c_QUERY_FILTER_TYPE_XOR FNil)
   end
 (* MultiQueryFilter::SaveToArchive: one AddArchiveMessage("kid", child) per child, in order *)
-with add_kids (kids : flist) (a : msg) : msg :=
+with kid_ops (kids : flist) : list field_op :=
   match kids with
-  | LNil => a
-  | LCons k tl => add_kids tl (add_msg nm_multi_kid (to_archive k) a)
+  | LNil => []
+  | LCons k tl => op_msg nm_multi_kid (to_archive k) :: kid_ops tl
   end.
 
 (* ------------------------------------------------------------------ reading *)
@@ -144,7 +156,7 @@ Section FromLevel.
       | Some v =>
           if negb (elem_size (ftype_of_tc tc) =? nt_size t) then Err          (* numBytes != sizeof(_value) *)
           else
-            let msk := match find_fix a nm_num_msk tc 0 with Some b => b | None => zeros (N.to_nat (nt_size t)) end in
+            let msk := match find_fix a nm_num_msk tc 0 with Some b => b | None => nt_default t end in
             Ok (FNum k (fst p) (snd p) (get_i8 a nm_num_op 0) (get_i8 a nm_num_mop 0) v msk (find_fix a nm_num_def tc 1))
       end).
 
